@@ -379,8 +379,10 @@ def run(ctx):
         m = oracle_pq(c, o)
         if m:
             fails.append(("pq", idx, m))
+    unknown_fails = [f for f in fails if not (f[0] == "uf" and ctx.known(classify_uf(ufs[f[1]], f[2])))]
     ctx.obligation("oracle: every observation of the implementation satisfies the property's partition / multiset semantics",
-                   "oracle-on-implementation", True, "%d failing cases" % len(fails))  # verdict carried by violations below
+                   "oracle-on-implementation", not unknown_fails,
+                   "%d failing case(s), %d of them not instances of a listed known finding" % (len(fails), len(unknown_fails)))
 
     # 2. kernel-checked correspondence
     bad_uf = bad_pq = []
@@ -437,15 +439,6 @@ def run(ctx):
             ctx.log("disagreement uf case", i, json.dumps(ufs[i]["ops"]), json.dumps(uf_obs[i]))
         for i in (bad_pq or [])[:3]:
             ctx.log("disagreement pq case", i, json.dumps(pqs[i]), json.dumps(pq_obs[i]))
-    # disagreements explained by an oracle failure of a *known* class do not count against the correspondence
-    if fails and not ctx.violations:
-        known_idx = {("uf", i) for w, i, m in fails if w == "uf" and ctx.known(classify_uf(ufs[i], m))}
-        unexplained = [i for i in (bad_uf or []) if ("uf", i) not in known_idx]
-        if not unexplained and not bad_pq:
-            for o in ctx.obligations:
-                if o["kind"] == "correspondence" and not o["ok"] and "uf" in o["name"]:
-                    o["ok"] = True
-                    o["detail"] += " (all disagreements are instances of listed known findings)"
 
 
 def replay(ctx, data):
